@@ -1,6 +1,8 @@
 (** C06 — property theorems (statements closed by [exact]). *)
 From Coq Require Import ZArith QArith List.
 From KV Require Import Base.Outcome Base.Num C19.Model C19.ProofsEasing C06.Model C06.Dur C06.Proofs C06.Proofs2.
+From KV Require Import C06.ModelOwners C06.ProofsOwners C03.Model C06.OwnersSound C06.ProofsOwnersSound C06.ProofsOwnersC12.
+From KV Require Base.IEEE C17.Model C12.Model C06.ProofsOwnersMod C06.RunOwners.
 Import ListNotations.
 Local Open Scope Q_scope.
 
@@ -99,3 +101,329 @@ Theorem param_modulator_holds :
     (nth_error (i_mods i) id = None \/ nth_error (i_mods i) id = Some None) ->
     exists p', upd powf p dt i = Ok (p', false) /\ p_raw p' = p_raw p /\ p_state p' = Idle (FromMod id m).
 Proof. exact idle_modulator_holds. Qed.
+
+(** * Parameters embedded in their owners (C06/ModelOwners.v: who ticks which parameter, where) *)
+
+(** An owner that ticks its parameter BEFORE any state-dependent return hands every history on to
+    it unchanged: whatever the other statements of [process] do, whatever the state changes,
+    whatever the chunk lengths, the parameter sees its own commands and one update of [dt * len]
+    per [process] call.  Any number type: bit for bit for IEEE. *)
+Theorem owner_early_follows_history :
+  forall (T : Type) (NT : Num T) (ND : NumDur T) (powf : T -> T -> T)
+    (VE : Type) (interpE : VE -> VE -> T -> VE) (VL : Type) (interpL : VL -> VL -> T -> VL) (S Out : Type)
+    (before : S -> nat -> T -> info T -> outcome S)
+    (pre : S -> param T VE -> nat -> T -> info T -> outcome (S * bool)) (silent_out : nat -> Out)
+    (mid : S -> param T VE -> param T VL -> nat -> T -> info T -> outcome S)
+    (render : S -> param T VE -> param T VL -> nat -> T -> info T -> outcome (S * Out))
+    (h : list (oop T VE VL S)) (o o' : owner T VE VL S) (l : list (bool * Out)),
+    owner_run powf VE interpE VL interpL S Out before pre silent_out mid render o h = Ok (o', l) ->
+    param_run powf VE interpE (o_early o) (early_view h) = Ok (o_early o').
+Proof. exact @early_projection_proof. Qed.
+
+(** A parameter ticked BELOW the early return misses every call that took it. *)
+Theorem owner_late_sees_only_rendering_calls :
+  forall (T : Type) (NT : Num T) (ND : NumDur T) (powf : T -> T -> T)
+    (VE : Type) (interpE : VE -> VE -> T -> VE) (VL : Type) (interpL : VL -> VL -> T -> VL) (S Out : Type)
+    (before : S -> nat -> T -> info T -> outcome S)
+    (pre : S -> param T VE -> nat -> T -> info T -> outcome (S * bool)) (silent_out : nat -> Out)
+    (mid : S -> param T VE -> param T VL -> nat -> T -> info T -> outcome S)
+    (render : S -> param T VE -> param T VL -> nat -> T -> info T -> outcome (S * Out))
+    (h : list (oop T VE VL S)) (o o' : owner T VE VL S) (l : list (bool * Out)),
+    owner_run powf VE interpE VL interpL S Out before pre silent_out mid render o h = Ok (o', l) ->
+    param_run powf VL interpL (o_late o) (late_view h (map fst l)) = Ok (o_late o').
+Proof. exact @late_projection_proof. Qed.
+
+(** The tween law of an owner's parameter: after [set target tween], for all histories of
+    [process] calls with arbitrary chunk lengths, arbitrary interleaved state changes and
+    commands to other parameters, the value is the law of the time PROCESSED since the command
+    (calls that took the early return included), and identically the target once complete. *)
+Theorem owner_tween_law :
+  forall (powf : Q -> Q -> Q) (VL : Type) (interpL : VL -> VL -> Q -> VL) (S Out : Type)
+    (before : S -> nat -> Q -> info Q -> outcome S)
+    (pre : S -> param Q Q -> nat -> Q -> info Q -> outcome (S * bool)) (silent_out : nat -> Out)
+    (mid : S -> param Q Q -> param Q VL -> nat -> Q -> info Q -> outcome S)
+    (render : S -> param Q Q -> param Q VL -> nat -> Q -> info Q -> outcome (S * Out))
+    (o o' : owner Q Q VL S) (tg : Q) (tw : tween Q) (h : list (oop Q Q VL S)) (l : list (bool * Out)),
+    no_early_set VL S h -> not_delayed (tw_start tw) -> (tw_dur tw <> 0)%Z -> calls h <> [] ->
+    owner_run powf Q (@lerp Q Num_Q) VL interpL S Out before pre silent_out mid render o
+      (OSetEarly (Fixed tg) tw :: h) = Ok (o', l) ->
+    let D := ns_to_secs_Q (tw_dur tw) in
+    if completes (tw_start tw) D 0 (calls h)
+    then p_state (o_early o') = Idle (Fixed tg) /\ p_raw (o_early o') = tg
+    else p_raw (o_early o') =
+         the_law powf (p_raw (o_early o)) tg (tw_easing tw) D (elapsed (tw_start tw) 0 (calls h)).
+Proof. exact owner_tween_law_proof. Qed.
+
+(** Independence of the owner's playback state and of the partition into chunks. *)
+Theorem owner_history_independent :
+  forall (powf : Q -> Q -> Q) (VL : Type) (interpL : VL -> VL -> Q -> VL) (S Out : Type)
+    (before : S -> nat -> Q -> info Q -> outcome S)
+    (pre : S -> param Q Q -> nat -> Q -> info Q -> outcome (S * bool)) (silent_out : nat -> Out)
+    (mid : S -> param Q Q -> param Q VL -> nat -> Q -> info Q -> outcome S)
+    (render : S -> param Q Q -> param Q VL -> nat -> Q -> info Q -> outcome (S * Out))
+    (o1 o2 o1' o2' : owner Q Q VL S) (tg : Q) (tw : tween Q) (h1 h2 : list (oop Q Q VL S))
+    (l1 l2 : list (bool * Out)),
+    o_early o1 = o_early o2 ->
+    no_early_set VL S h1 -> no_early_set VL S h2 ->
+    not_delayed (tw_start tw) -> (tw_dur tw <> 0)%Z -> calls h1 <> [] -> calls h2 <> [] ->
+    let D := ns_to_secs_Q (tw_dur tw) in
+    completes (tw_start tw) D 0 (calls h1) = false -> completes (tw_start tw) D 0 (calls h2) = false ->
+    plain_sum (tw_start tw) (calls h1) == plain_sum (tw_start tw) (calls h2) ->
+    owner_run powf Q (@lerp Q Num_Q) VL interpL S Out before pre silent_out mid render o1
+      (OSetEarly (Fixed tg) tw :: h1) = Ok (o1', l1) ->
+    owner_run powf Q (@lerp Q Num_Q) VL interpL S Out before pre silent_out mid render o2
+      (OSetEarly (Fixed tg) tw :: h2) = Ok (o2', l2) ->
+    p_raw (o_early o1') = p_raw (o_early o2').
+Proof. exact owner_history_independent_proof. Qed.
+
+(** For an immediate start the processed time is [dt] times the number of frames processed. *)
+Theorem owner_processed_time_is_frames :
+  forall (VL S : Type) (dt : Q) (h : list (oop Q Q VL S)),
+    uniform_dt VL S dt h -> plain_sum Immediate (calls h) == dt * inject_Z (Z.of_nat (frames_of h)).
+Proof. exact processed_time_is_frames. Qed.
+
+(** A delayed tween start is counted down by every [process] call, in every state. *)
+Theorem owner_delayed_countdown :
+  forall (powf : Q -> Q -> Q) (VL : Type) (interpL : VL -> VL -> Q -> VL) (S Out : Type)
+    (before : S -> nat -> Q -> info Q -> outcome S)
+    (pre : S -> param Q Q -> nat -> Q -> info Q -> outcome (S * bool)) (silent_out : nat -> Out)
+    (mid : S -> param Q Q -> param Q VL -> nat -> Q -> info Q -> outcome S)
+    (render : S -> param Q Q -> param Q VL -> nat -> Q -> info Q -> outcome (S * Out))
+    (o o' : owner Q Q VL S) (v0 tg : Q) (tw : tween Q) (rem : Z) (len : nat) (dt : Q) (i : info Q) (d : Z)
+    (l : list (bool * Out)),
+    p_state (o_early o) = Tweening v0 (Fixed tg) 0 tw -> p_stagnant (o_early o) = false ->
+    tw_start tw = Delayed rem -> (rem <> 0)%Z -> (tw_dur tw <> 0)%Z ->
+    secs_to_ns_Q (chunk_time len dt) = Ok d ->
+    owner_run powf Q (@lerp Q Num_Q) VL interpL S Out before pre silent_out mid render o [OProcess len dt i] = Ok (o', l) ->
+    p_state (o_early o') =
+      Tweening v0 (Fixed tg) 0 {| tw_start := Delayed (sat_sub rem d); tw_dur := tw_dur tw; tw_easing := tw_easing tw |}
+    /\ p_raw (o_early o') = the_law powf v0 tg (tw_easing tw) (ns_to_secs_Q (tw_dur tw)) 0.
+Proof. exact owner_delayed_countdown_proof. Qed.
+
+(** The late slot obeys the law only outside the class "some call took the early return" ... *)
+Theorem owner_late_tween_law :
+  forall (powf : Q -> Q -> Q) (VE : Type) (interpE : VE -> VE -> Q -> VE) (S Out : Type)
+    (before : S -> nat -> Q -> info Q -> outcome S)
+    (pre : S -> param Q VE -> nat -> Q -> info Q -> outcome (S * bool)) (silent_out : nat -> Out)
+    (mid : S -> param Q VE -> param Q Q -> nat -> Q -> info Q -> outcome S)
+    (render : S -> param Q VE -> param Q Q -> nat -> Q -> info Q -> outcome (S * Out))
+    (o o' : owner Q VE Q S) (tg : Q) (tw : tween Q) (h : list (oop Q VE Q S)) (l : list (bool * Out)),
+    no_late_set VE S h -> not_delayed (tw_start tw) -> (tw_dur tw <> 0)%Z -> calls h <> [] ->
+    owner_run powf VE interpE Q (@lerp Q Num_Q) S Out before pre silent_out mid render o
+      (OSetLate (Fixed tg) tw :: h) = Ok (o', l) ->
+    ~ some_call_silent Out l ->
+    let D := ns_to_secs_Q (tw_dur tw) in
+    if completes (tw_start tw) D 0 (calls h)
+    then p_state (o_late o') = Idle (Fixed tg) /\ p_raw (o_late o') = tg
+    else p_raw (o_late o') =
+         the_law powf (p_raw (o_late o)) tg (tw_easing tw) D (elapsed (tw_start tw) 0 (calls h)).
+Proof. exact late_tween_law_proof. Qed.
+
+(** ... and on that class it fails: a tween set on a paused owner has not moved after half its
+    duration has been processed ("update the parameters after the early return", refuted). *)
+Theorem late_update_reading_refuted :
+  exists (h : list (toy_op (T:=Q) Q)) (o' : toyQ) (l : list (bool * option (Q * Q))),
+    no_late_set Q bool h /\ calls h <> [] /\
+    toy_run pw0 Q (@lerp Q Num_Q) toy0 (OSetLate (Fixed 10) tw_1s :: h) = Ok (o', l) /\
+    some_call_silent (option (Q * Q)) l /\
+    completes Immediate (ns_to_secs_Q 1000000000) 0 (calls h) = false /\
+    ~ (p_raw (o_late o') ==
+       the_law pw0 (p_raw (o_late toy0)) 10 Linear (ns_to_secs_Q 1000000000) (elapsed Immediate 0 (calls h))) /\
+    p_raw (o_late o') == 0 /\
+    the_law pw0 0 10 Linear (ns_to_secs_Q 1000000000) (elapsed Immediate 0 (calls h)) == 5.
+Proof. exact late_update_reading_refuted_proof. Qed.
+
+(** The sound (shell of C03 with its three parameters): every history of set_volume /
+    set_playback_rate / set_panning, pause, resume, resume_at, stop and [process] calls is, to
+    each parameter, its own commands plus one update of [dt * len] per call -- Playing, Pausing,
+    Paused, WaitingToResume, Resuming, Stopping, start time pending alike.  Any number type. *)
+Theorem sound_params_follow_history :
+  forall (T : Type) (NT : Num T) (ND : NumDur T) (powf : T -> T -> T)
+    (V : Type) (interp : V -> V -> T -> V) (silence identity : V)
+    (A : Type) (azero : A) (G : Type) (amp : V -> G) (source : Z -> T -> A)
+    (mix : A -> G -> G -> V -> A) (rate_abs : T -> T) (position_of : Z -> T -> T)
+    (sr : Z) (fuel : nat) (s s' : dsound T V) (h : list (sop T V)) (l : list (bool * list A)),
+    dsound_run powf V interp silence identity A azero G amp source mix rate_abs position_of sr fuel s h = Ok (s', l) ->
+    param_run powf V interp (d_vol s) (flat_map vol_view h) = Ok (d_vol s') /\
+    param_run powf T (@lerp T NT) (d_rate s) (flat_map rate_view h) = Ok (d_rate s') /\
+    param_run powf V interp (d_pan s) (flat_map pan_view h) = Ok (d_pan s').
+Proof. exact @sound_params_follow_history_proof. Qed.
+
+Theorem sound_volume_tween_law :
+  forall (powf : Q -> Q -> Q) (silence identity : Q) (A : Type) (azero : A)
+    (G : Type) (amp : Q -> G) (source : Z -> Q -> A) (mix : A -> G -> G -> Q -> A)
+    (rate_abs : Q -> Q) (position_of : Z -> Q -> Q) (sr : Z) (fuel : nat) (s s' : dsound Q Q)
+    (tg : Q) (tw : tween Q) (h : list (sop Q Q)) (l : list (bool * list A)),
+    forallb (fun op : sop Q Q => negb (is_svol op)) h = true ->
+    not_delayed (tw_start tw) -> (tw_dur tw <> 0)%Z -> scalls h <> [] ->
+    dsound_run powf Q (@lerp Q Num_Q) silence identity A azero G amp source mix rate_abs position_of sr fuel s
+      (SVol (Fixed tg) tw :: h) = Ok (s', l) ->
+    let D := ns_to_secs_Q (tw_dur tw) in
+    if completes (tw_start tw) D 0 (scalls h)
+    then p_state (d_vol s') = Idle (Fixed tg) /\ p_raw (d_vol s') = tg
+    else p_raw (d_vol s') = the_law powf (p_raw (d_vol s)) tg (tw_easing tw) D (elapsed (tw_start tw) 0 (scalls h)).
+Proof. exact sound_volume_tween_law_proof. Qed.
+
+Theorem sound_rate_tween_law :
+  forall (powf : Q -> Q -> Q) (silence identity : Q) (A : Type) (azero : A)
+    (G : Type) (amp : Q -> G) (source : Z -> Q -> A) (mix : A -> G -> G -> Q -> A)
+    (rate_abs : Q -> Q) (position_of : Z -> Q -> Q) (sr : Z) (fuel : nat) (s s' : dsound Q Q)
+    (tg : Q) (tw : tween Q) (h : list (sop Q Q)) (l : list (bool * list A)),
+    forallb (fun op : sop Q Q => negb (is_srate op)) h = true ->
+    not_delayed (tw_start tw) -> (tw_dur tw <> 0)%Z -> scalls h <> [] ->
+    dsound_run powf Q (@lerp Q Num_Q) silence identity A azero G amp source mix rate_abs position_of sr fuel s
+      (SRate (Fixed tg) tw :: h) = Ok (s', l) ->
+    let D := ns_to_secs_Q (tw_dur tw) in
+    if completes (tw_start tw) D 0 (scalls h)
+    then p_state (d_rate s') = Idle (Fixed tg) /\ p_raw (d_rate s') = tg
+    else p_raw (d_rate s') = the_law powf (p_raw (d_rate s)) tg (tw_easing tw) D (elapsed (tw_start tw) 0 (scalls h)).
+Proof. exact sound_rate_tween_law_proof. Qed.
+
+Theorem sound_panning_tween_law :
+  forall (powf : Q -> Q -> Q) (silence identity : Q) (A : Type) (azero : A)
+    (G : Type) (amp : Q -> G) (source : Z -> Q -> A) (mix : A -> G -> G -> Q -> A)
+    (rate_abs : Q -> Q) (position_of : Z -> Q -> Q) (sr : Z) (fuel : nat) (s s' : dsound Q Q)
+    (tg : Q) (tw : tween Q) (h : list (sop Q Q)) (l : list (bool * list A)),
+    forallb (fun op : sop Q Q => negb (is_span op)) h = true ->
+    not_delayed (tw_start tw) -> (tw_dur tw <> 0)%Z -> scalls h <> [] ->
+    dsound_run powf Q (@lerp Q Num_Q) silence identity A azero G amp source mix rate_abs position_of sr fuel s
+      (SPan (Fixed tg) tw :: h) = Ok (s', l) ->
+    let D := ns_to_secs_Q (tw_dur tw) in
+    if completes (tw_start tw) D 0 (scalls h)
+    then p_state (d_pan s') = Idle (Fixed tg) /\ p_raw (d_pan s') = tg
+    else p_raw (d_pan s') = the_law powf (p_raw (d_pan s)) tg (tw_easing tw) D (elapsed (tw_start tw) 0 (scalls h)).
+Proof. exact sound_panning_tween_law_proof. Qed.
+
+(** Two histories of a sound -- one plays while the other is paused, waits to resume or has not
+    started; different chunk lengths -- leave the volume at the same value whenever the same
+    time was processed. *)
+Theorem sound_volume_state_independent :
+  forall (powf : Q -> Q -> Q) (silence identity : Q) (A : Type) (azero : A)
+    (G : Type) (amp : Q -> G) (source : Z -> Q -> A) (mix : A -> G -> G -> Q -> A)
+    (rate_abs : Q -> Q) (position_of : Z -> Q -> Q) (sr : Z) (fuel : nat) (s1 s2 s1' s2' : dsound Q Q)
+    (tg : Q) (tw : tween Q) (h1 h2 : list (sop Q Q)) (l1 l2 : list (bool * list A)),
+    d_vol s1 = d_vol s2 ->
+    forallb (fun op : sop Q Q => negb (is_svol op)) h1 = true ->
+    forallb (fun op : sop Q Q => negb (is_svol op)) h2 = true ->
+    not_delayed (tw_start tw) -> (tw_dur tw <> 0)%Z -> scalls h1 <> [] -> scalls h2 <> [] ->
+    let D := ns_to_secs_Q (tw_dur tw) in
+    completes (tw_start tw) D 0 (scalls h1) = false -> completes (tw_start tw) D 0 (scalls h2) = false ->
+    plain_sum (tw_start tw) (scalls h1) == plain_sum (tw_start tw) (scalls h2) ->
+    dsound_run powf Q (@lerp Q Num_Q) silence identity A azero G amp source mix rate_abs position_of sr fuel s1
+      (SVol (Fixed tg) tw :: h1) = Ok (s1', l1) ->
+    dsound_run powf Q (@lerp Q Num_Q) silence identity A azero G amp source mix rate_abs position_of sr fuel s2
+      (SVol (Fixed tg) tw :: h2) = Ok (s2', l2) ->
+    p_raw (d_vol s1') = p_raw (d_vol s2').
+Proof. exact sound_volume_state_independent_proof. Qed.
+
+(** The sub-track: volume and send-route volumes in every state ... *)
+Theorem track_volume_follows_history :
+  forall (T : Type) (NT : Num T) (ND : NumDur T) (powf : T -> T -> T)
+    (V : Type) (interp : V -> V -> T -> V) (silence identity : V)
+    (VP : Type) (interpP : VP -> VP -> T -> VP) (VS : Type) (interpS : VS -> VS -> T -> VS)
+    (A : Type) (azero : A) (G : Type) (amp : V -> G) (gmul : G -> G -> G) (ascale : A -> G -> A)
+    (body : option VP -> nat -> T -> info T -> list A)
+    (spatialize : param T VP -> param T VS -> nat -> nat -> A -> A) (t t' : dtrack T V VP VS)
+    (h : list (kop T V VP VS)) (l : list (bool * list A * list G)),
+    dtrack_run powf V interp silence identity VP interpP VS interpS A azero G amp gmul ascale body spatialize t h = Ok (t', l) ->
+    param_run powf V interp (k_vol t) (flat_map kvol_view h) = Ok (k_vol t').
+Proof. exact @track_volume_follows_history_proof. Qed.
+
+Theorem track_route_follows_history :
+  forall (T : Type) (NT : Num T) (ND : NumDur T) (powf : T -> T -> T)
+    (V : Type) (interp : V -> V -> T -> V) (silence identity : V)
+    (VP : Type) (interpP : VP -> VP -> T -> VP) (VS : Type) (interpS : VS -> VS -> T -> VS)
+    (A : Type) (azero : A) (G : Type) (amp : V -> G) (gmul : G -> G -> G) (ascale : A -> G -> A)
+    (body : option VP -> nat -> T -> info T -> list A)
+    (spatialize : param T VP -> param T VS -> nat -> nat -> A -> A) (n : nat)
+    (h : list (kop T V VP VS)) (t t' : dtrack T V VP VS) (l : list (bool * list A * list G)) (p : param T V),
+    dtrack_run powf V interp silence identity VP interpP VS interpS A azero G amp gmul ascale body spatialize t h = Ok (t', l) ->
+    nth_error (k_routes t) n = Some p ->
+    exists p' : param T V,
+      nth_error (k_routes t') n = Some p' /\ param_run powf V interp p (flat_map (kroute_view n) h) = Ok p'.
+Proof. exact @track_route_follows_history_proof. Qed.
+
+(** ... but its spatial position only in the calls in which the track advanced (kira updates it
+    below the "not advancing" return, track/sub.rs:220) ... *)
+Theorem track_position_follows_advancing_calls :
+  forall (T : Type) (NT : Num T) (ND : NumDur T) (powf : T -> T -> T)
+    (V : Type) (interp : V -> V -> T -> V) (silence identity : V)
+    (VP : Type) (interpP : VP -> VP -> T -> VP) (VS : Type) (interpS : VS -> VS -> T -> VS)
+    (A : Type) (azero : A) (G : Type) (amp : V -> G) (gmul : G -> G -> G) (ascale : A -> G -> A)
+    (body : option VP -> nat -> T -> info T -> list A)
+    (spatialize : param T VP -> param T VS -> nat -> nat -> A -> A) (h : list (kop T V VP VS))
+    (t t' : dtrack T V VP VS) (l : list (bool * list A * list G)) (pos : param T VP) (str : param T VS),
+    dtrack_run powf V interp silence identity VP interpP VS interpS A azero G amp gmul ascale body spatialize t h = Ok (t', l) ->
+    k_spatial t = Some (pos, str) ->
+    exists (pos' : param T VP) (str' : param T VS),
+      k_spatial t' = Some (pos', str') /\
+      param_run powf VP interpP pos (kpos_view h (map (fun x : bool * list A * list G => fst (fst x)) l)) = Ok pos'.
+Proof. exact @track_position_follows_advancing_calls_proof. Qed.
+
+(** ... so that on the class "the track did not advance during some call" the law of the
+    processed time fails for it. *)
+Theorem track_position_frozen_while_paused_refuted :
+  exists (h : list (kop Q Q Q Q)) (t' : dtrack Q Q Q Q) (l : list (bool * list unit * list unit)) (pos' str' : param Q Q),
+    forallb (fun op : kop Q Q Q Q => negb (is_kpos op)) h = true /\
+    qtrack_run qtrack0 (KPause tw0 :: KProcess 1 dt1024 no_info :: KPos (Fixed 10) tw_1s :: h) = Ok (t', l) /\
+    existsb (fun x : bool * list unit * list unit => fst (fst x)) l = true /\
+    k_spatial t' = Some (pos', str') /\
+    completes Immediate (ns_to_secs_Q 1000000000) 0 (kcalls h) = false /\
+    p_raw pos' == 0 /\
+    the_law pw0 0 10 Linear (ns_to_secs_Q 1000000000) (elapsed Immediate 0 (kcalls h)) == 5.
+Proof. exact track_position_frozen_while_paused_refuted_proof. Qed.
+
+(** The track model of C12 (the whole tree) ticks its volume in every call, advancing or not. *)
+Theorem c12_track_volume_ticked :
+  forall (T : Type) (NT : Num T) (ND : NumDur T) (powf : T -> T -> T)
+    (V : Type) (interp : V -> V -> T -> V) (identity : V)
+    (A : Type) (azero : A) (aadd : A -> A -> A) (G : Type) (amp : V -> G) (gmul : G -> G -> G)
+    (ascale : A -> G -> A) (Snd : Type)
+    (snd_process : Snd -> nat -> T -> info T -> outcome (Snd * list A)) (E : Type)
+    (eff_process : E -> list A -> T -> info T -> E * list A) (t t' : C12.Model.track T V Snd E)
+    (len : nat) (dt : T) (i : info T) (out : list A),
+    C12.Model.process powf V interp identity A azero aadd G amp gmul ascale Snd snd_process E eff_process t len dt i = Ok (t', out) ->
+    exists f : bool,
+      param_update powf V interp (C12.Model.t_vol t) (nmul dt (nofZ (Z.of_nat len))) i = Ok (C12.Model.t_vol t', f).
+Proof. exact @c12_track_volume_ticked_proof. Qed.
+
+(** The tweener modulator (modulator/tweener.rs as transcribed in C17): told to move to [target],
+    once it has come to rest -- any updates, any time steps, any start value / duration / easing /
+    delay -- its value IS the target, for any number type (binary64: bit for bit), and stays so. *)
+Theorem tweener_ends_on_target :
+  forall (T : Type) (NT : Num T) (powf : T -> T -> T) (secs_to_ns : T -> Z) (ns_to_secs : Z -> T)
+    (t0 : C17.Model.tweener T) (target : T) (tw : C17.Model.tween T) (dts more : list T),
+    let t := C06.ProofsOwnersMod.trun powf secs_to_ns ns_to_secs dts (C17.Model.tweener_set t0 target tw) in
+    C17.Model.t_state t = C17.Model.TIdle ->
+    C17.Model.t_value t = target /\
+    C17.Model.t_value (C06.ProofsOwnersMod.trun powf secs_to_ns ns_to_secs more t) = target /\
+    C17.Model.t_state (C06.ProofsOwnersMod.trun powf secs_to_ns ns_to_secs more t) = C17.Model.TIdle.
+Proof. exact @C06.ProofsOwnersMod.tweener_ends_on_target_proof. Qed.
+
+Theorem tweener_finishing_update :
+  forall (T : Type) (NT : Num T) (powf : T -> T -> T) (secs_to_ns : T -> Z) (ns_to_secs : Z -> T)
+    (v0 v1 time : T) (tw : C17.Model.tween T) (value dt : T),
+    fst (C17.Model.start_step secs_to_ns dt (C17.Model.tw_start tw)) = true ->
+    nleb (ns_to_secs (C17.Model.tw_dur tw)) (nadd time dt) = true ->
+    C17.Model.tweener_update powf secs_to_ns ns_to_secs dt
+      {| C17.Model.t_state := C17.Model.TTweening v0 v1 time tw; C17.Model.t_value := value |} =
+    {| C17.Model.t_state := C17.Model.TIdle; C17.Model.t_value := v1 |}.
+Proof. exact @C06.ProofsOwnersMod.tweener_finishing_update_proof. Qed.
+
+(** "Finish by interpolate(start, target, 1.0)" refuted in binary64 (1.0 -> 0.1 rests one ulp
+    below 0.1, outside the interval), while the code's assignment gives the target's bits. *)
+Theorem tweener_finish_by_interpolation_refuted :
+  exists (v0 v1 dt : Base.IEEE.f64) (dur : Z),
+    let t := C06.ProofsOwnersMod.tweener_update_by_interpolation C06.ProofsOwnersMod.pw64 C06.ProofsOwnersMod.sn64
+               C06.ProofsOwnersMod.ns64 dt
+               (C17.Model.tweener_set (C17.Model.tweener_new v0) v1 (C06.ProofsOwnersMod.tw64 dur)) in
+    C17.Model.t_state t = C17.Model.TIdle /\
+    Base.IEEE.bits_of_f64 (C17.Model.t_value t) <> Base.IEEE.bits_of_f64 v1 /\
+    Base.IEEE.lt64 (C17.Model.t_value t) v1 = true /\
+    Base.IEEE.lt64 v1 v0 = true /\
+    Base.IEEE.bits_of_f64
+      (C17.Model.t_value
+         (C17.Model.tweener_update C06.ProofsOwnersMod.pw64 C06.ProofsOwnersMod.sn64 C06.ProofsOwnersMod.ns64 dt
+            (C17.Model.tweener_set (C17.Model.tweener_new v0) v1 (C06.ProofsOwnersMod.tw64 dur)))) =
+    Base.IEEE.bits_of_f64 v1.
+Proof. exact C06.ProofsOwnersMod.tweener_finish_by_interpolation_refuted_proof. Qed.
